@@ -110,15 +110,22 @@ namespace pika::threads::detail {
     {
         PIKA_ASSERT(num_thread < suspend_conds_.size());
 
+        PIKA_VERIF_PRE("el.sleep", this);
         states_[num_thread].store(runtime_state::sleeping);
+        PIKA_VERIF_POST("el.sleep", this, num_thread, 0);
+        PIKA_VERIF_POINT("el.pt.sleep", this, num_thread, 0);
         std::unique_lock<pu_mutex_type> l(suspend_mtxs_[num_thread]);
+        PIKA_VERIF_POST("el.wait", this, num_thread, 0);
         suspend_conds_[num_thread].wait(l);
+        PIKA_VERIF_POST("el.woke", this, num_thread, 0);
 
         // Only set running if still in runtime_state::sleeping. Can be set with
         // non-blocking/locking functions to stopping or terminating, in
         // which case the state is left untouched.
         pika::runtime_state expected = runtime_state::sleeping;
+        PIKA_VERIF_PRE("el.wake", this);
         states_[num_thread].compare_exchange_strong(expected, runtime_state::running);
+        PIKA_VERIF_POST("el.wake", this, num_thread, (static_cast<std::uint64_t>(static_cast<std::uint8_t>(expected)) << 8) | static_cast<std::uint8_t>(states_[num_thread].load()));
 
         PIKA_ASSERT(expected == runtime_state::sleeping || expected == runtime_state::stopping ||
             expected == runtime_state::terminating);
@@ -128,11 +135,15 @@ namespace pika::threads::detail {
     {
         if (num_thread == std::size_t(-1))
         {
+            PIKA_VERIF_POINT("el.pt.notify", this, num_thread, 0);
+            PIKA_VERIF_POST("el.notify", this, 255, 0);
             for (std::condition_variable& c : suspend_conds_) { c.notify_one(); }
         }
         else
         {
             PIKA_ASSERT(num_thread < suspend_conds_.size());
+            PIKA_VERIF_POINT("el.pt.notify", this, num_thread, 0);
+            PIKA_VERIF_POST("el.notify", this, num_thread, 0);
             suspend_conds_[num_thread].notify_one();
         }
     }
@@ -164,12 +175,15 @@ namespace pika::threads::detail {
 
                             if (l.owns_lock())
                             {
+                                PIKA_VERIF_PRE("el.sel", this);
                                 if (states_[num_thread_local] <= max_allowed_state)
                                 {
+                                    PIKA_VERIF_POST("el.sel", this, num_thread_local, static_cast<std::uint8_t>(states_[num_thread_local].load()) | (static_cast<std::uint64_t>(static_cast<std::uint8_t>(max_allowed_state)) << 8) | (std::uint64_t(1) << 16) | (std::uint64_t(1) << 17));
                                     num_thread = num_thread_local;
                                     return false;
                                 }
 
+                                PIKA_VERIF_POST("el.sel", this, num_thread_local, static_cast<std::uint8_t>(states_[num_thread_local].load()) | (static_cast<std::uint64_t>(static_cast<std::uint8_t>(max_allowed_state)) << 8) | (std::uint64_t(1) << 16) | (std::uint64_t(0) << 17));
                                 l.unlock();
                             }
 
@@ -214,10 +228,13 @@ namespace pika::threads::detail {
 
                 l = std::unique_lock<pu_mutex_type>(pu_mtxs_[num_thread_local], std::try_to_lock);
 
+                PIKA_VERIF_PRE("el.sel", this);
                 if (l.owns_lock() && states_[num_thread_local] <= runtime_state::suspended)
                 {
+                    PIKA_VERIF_POST("el.sel", this, num_thread_local, static_cast<std::uint8_t>(states_[num_thread_local].load()) | (static_cast<std::uint64_t>(static_cast<std::uint8_t>(runtime_state::suspended)) << 8) | (std::uint64_t(1) << 16) | (std::uint64_t(1) << 17));
                     return num_thread_local;
                 }
+                PIKA_VERIF_POST("el.sel", this, num_thread_local, static_cast<std::uint8_t>(states_[num_thread_local].load()) | (static_cast<std::uint64_t>(static_cast<std::uint8_t>(runtime_state::suspended)) << 8) | (std::uint64_t(l.owns_lock()) << 16) | (std::uint64_t(0) << 17));
             }
         }
 
